@@ -100,8 +100,18 @@ func buildNetwork(r *rand.Rand, o genOpts) *genNet {
 		}
 		e := acmelib.NewSignalEnum(en)
 		nv := r.Intn(4)
+		// now and then an enum repeats the value NAMES of the first enum, in the same order, with
+		// indexes of its own (two value tables that differ in the indexes only)
+		twin := i > 0 && len(g.enums) > 0 && len(g.enums[0].Values()) > 0 && r.Intn(3) == 0
+		if twin {
+			nv = len(g.enums[0].Values())
+		}
 		for j := 0; j < nv; j++ {
-			must(e.AddValue(acmelib.NewSignalEnumValue(sprintf("V%d_%d", i, j), j*4+r.Intn(4))))
+			vn := sprintf("V%d_%d", i, j)
+			if twin {
+				vn = sprintf("V0_%d", j)
+			}
+			must(e.AddValue(acmelib.NewSignalEnumValue(vn, j*4+r.Intn(4))))
 		}
 		if r.Intn(3) == 0 {
 			must(e.SetMinSize(pick(r, 2, 4)))
